@@ -41,11 +41,15 @@ def gen_ops(ctx):
     for f in inc:
         items.append((f"sample:incorrect:{f.stem}", "pair", str(proto), str(f), None))
         items.append((f"sample:incorrect:{f.stem}", "direct", str(proto), str(f), None))
-    n = 260 if quick else 3000
+    n = 240 if quick else 3000
     pairs, kinds, details = [], [], []
     for i in range(n):
-        s = L.Gen(rng).schema()
-        k = L.UNSAFE_KINDS[i % len(L.UNSAFE_KINDS)] if i < 4 * len(L.UNSAFE_KINDS) else rng.choice(L.UNSAFE_KINDS)
+        if i % 6 == 5:   # a mask handed down a chain of types: reuse of a bit that only means something at the bottom
+            s = L.Gen(rng).schema(ntypes=rng.randrange(0, 4), nfuns=rng.randrange(0, 2), chain=True)
+            k = "bit-reuse-deep"
+        else:
+            s = L.Gen(rng).schema()
+            k = L.UNSAFE_KINDS[i % len(L.UNSAFE_KINDS)] if i < 4 * len(L.UNSAFE_KINDS) else rng.choice(L.UNSAFE_KINDS)
         new = L.unsafe_edit(rng, s, k)
         if new is None:
             continue
